@@ -154,19 +154,29 @@ def _skip_generics(toks, mt, j, where):
     raise ShapeError(f"{where}: unclosed generics")
 
 
+class BoundName(str):
+    """the trait bounding a generic parameter; `.args`: the tokens between the parentheses of `FnMut(..)`"""
+    args = None
+
+
 def _bounds(toks, where):
     """`N: ToShortFileName, F: FnMut(&DirEntry)` -> {N: ToShortFileName, F: FnMut}"""
     out = {}
     for part in split_commas(toks, where):
         if len(part) >= 3 and part[0].k == "id" and part[1].k == "p" and part[1].s == ":":
             names = []
-            for t in part[2:]:
+            args = None
+            for i, t in enumerate(part[2:]):
                 if t.k == "p" and t.s in ("(", "<", "+"):
+                    if t.s == "(":
+                        args = part[2 + i + 1:-1] if part[-1].k == "p" and part[-1].s == ")" else None
                     break
                 if t.k == "id":
                     names.append(t.s)
             if names:
-                out[part[0].s] = names[-1]
+                b = BoundName(names[-1])
+                b.args = args
+                out[part[0].s] = b
     return out
 
 
@@ -454,13 +464,16 @@ def _balanced(t):
 # ----------------------------------------------------------------------------------------------------------------
 
 class Wrap:
+    FILES = WRAP_FILES
+    MANAGER_OWN = MANAGER_OWN
+
     def __init__(self, read_src, mgr_text):
         self.items = Items()
         self.impls = []
         self.scope = {}     # file -> traits in scope
         self.known_traits = set(EXT_TRAITS)
         per_file = {}
-        for f in WRAP_FILES:
+        for f in self.FILES:
             text = read_src(f)
             self.items.scan_file(f, text)
             impls, used, traits, glob = scan_impls(f, text)
@@ -1426,7 +1439,7 @@ class Wrap:
         if len(params) != len(args):
             self.err(f"{target.label()} takes {len(params)} arguments, {len(args)} given")
         selfty = ("adt", target.impl.ty)
-        is_mgr = target.impl.ty == MANAGER and target.name not in MANAGER_OWN
+        is_mgr = target.impl.ty == MANAGER and target.name not in self.MANAGER_OWN
         if recv is not None:
             want = self.recv_type(selfty, sk)
             if path_call and not self.coerces(recv.ty, want):
